@@ -534,10 +534,18 @@ def enumerate_cases(tier):
         for r, (o, a, s) in enumerate(single):
             alts = alternatives(spec_unit(s), tier)
             n_alt += len(alts)
+            # quick: a pure duration also gets the thorough-only time units (ms, week) in a fresh build: conversions of
+            # whole hours from milliseconds are inexact and sit on the ceil / floor boundaries of the hourly model
+            boundary = []
+            if tier == "quick" and set(atoms_of(spec_unit(s))) <= {a_ for a_, _ in FAMILY["time"]["core"]} \
+                    and sum(atoms_of(spec_unit(s)).values()) == 1:
+                boundary = [x for x in alternatives(spec_unit(s), "thorough") if x not in alts]
+                n_alt += len(boundary)
             if tier == "quick" and (o, a) not in full:
-                plan = [("fresh", pick(alts, 1, r))]
+                plan = [("fresh", pick(alts, 1, r) + boundary)]
             elif tier == "quick":
-                plan = [("fresh", pick(alts, 3, r)), ("live", pick(alts, 1, r + 1)), ("live2", pick(alts, 1, r + 2)),
+                plan = [("fresh", pick(alts, 3, r) + boundary), ("live", pick(alts, 1, r + 1)),
+                        ("live2", pick(alts, 1, r + 2)),
                         ("probe", pick(alts, 1, r))]
             else:
                 plan = [("fresh", alts), ("live", alts), ("live2", alts), ("probe", pick(alts, 1, r))]
